@@ -191,16 +191,28 @@ impl FromStr for Id {
 
         let mut bytes = Vec::with_capacity(s.len() / 2);
 
-        for i in 0..s.len() / 2 {
-            let byte_str = &s[i * 2..(i * 2) + 2];
-            if let Ok(byte) = u8::from_str_radix(byte_str, 16) {
-                bytes.push(byte);
-            } else {
-                return Err(DecodeIdError::InvalidHexCharacter(byte_str.into()));
+        for pair in s.as_bytes().chunks_exact(2) {
+            match (hex_digit(pair[0]), hex_digit(pair[1])) {
+                (Some(high), Some(low)) => bytes.push((high << 4) | low),
+                _ => {
+                    return Err(DecodeIdError::InvalidHexCharacter(
+                        String::from_utf8_lossy(pair).into(),
+                    ));
+                }
             }
         }
 
         Ok(Id::from_bytes(bytes)?)
+    }
+}
+
+/// Value of a single ASCII hex digit, `None` for any other byte (signs and non-ASCII included).
+fn hex_digit(c: u8) -> Option<u8> {
+    match c {
+        b'0'..=b'9' => Some(c - b'0'),
+        b'a'..=b'f' => Some(c - b'a' + 10),
+        b'A'..=b'F' => Some(c - b'A' + 10),
+        _ => None,
     }
 }
 
